@@ -38,8 +38,12 @@ SepBytes == (33..126) \ {47}                                                \* p
 LabelPool == SampleLabels \cup {<<>>, <<97>>, <<97, 98>>, <<45, 97, 98>>, <<97, 98, 45>>}
 JoinDots(ls) == IF Len(ls) = 1 THEN ls[1] ELSE FoldLeft(LAMBDA acc, x : acc \o <<46>> \o x, ls[1], Tail(ls))
 Dotted == {JoinDots(ls) : ls \in UNION {[1..n -> LabelPool] : n \in 1..4}} \ {<<>>}
+\* many labels: k well-formed 3-byte labels followed by nothing, or by one or two labels that are too short
+\* (15 labels + ".a.b" is a 63-byte name with 17 labels)
+ManyLabels == {JoinDots([i \in 1..k |-> <<97, 97, 97>>] \o t)
+                 : k \in 1..16, t \in {<<>>, <<<<97>>>>, <<<<97>>, <<98>>>>, <<<<97, 98>>>>, <<<<97, 98>>, <<99>>>>, <<<<48>>, <<57>>>>}}
 ExtraNames ==
-     Dotted
+     Dotted \cup ManyLabels
 \cup {Rep(97, n) : n \in 1..70}                                     \* a, aa, ... (63 is the longest valid)
 \cup {Rep(97, 3) \o <<46>> \o Rep(98, n) : n \in 55..62}           \* two labels around the length limit
 \cup {Rep(97, 30) \o <<46>> \o Rep(48, 3) \o <<46>> \o Rep(45, 1) \o Rep(122, 2)}
